@@ -2,144 +2,41 @@
   C11 — Built-in OS trap routines meet their contracts.
   The OS image (`Gen/OsImage.lean`) is regenerated from /repo's `src/os.asm` (through /repo's assembler) on every
   run, so every theorem here is re-checked against the OS text that is in the tree now.
-  Part 1 (this file, machine-checked on the current image, by kernel evaluation of the decoder over the image):
-  each trap vector x20-x25 points at a routine whose decoded instruction listing is exactly the known-good routine —
-  GETC = poll KBSR until ready, load KBDR, RTI; OUT = push R0, poll DSR, pop R0, store to DDR, RTI; PUTS = save R0/R1,
-  loop { load word, stop at zero, OUT, advance }, restore, RTI; IN = prompt via PUTS, GETC, OUT, RTI; PUTSP = save
-  R0-R3, per word emit low byte then the high byte obtained by eight shift rounds, stop at the first zero byte,
-  restore, RTI; HALT = clear MCR in a loop — with the device pointers resolving to KBSR/KBDR/DSR/DDR/MCR and the
-  prompt / exception message strings as specified.  An edit of os.asm that changes any of these breaks a proof.
-  Part 2 (C08/C10 theorems used): TRAP entry and RTI restore PC, PSR/CC, privilege and the stack pointers exactly
-  (`C10.rti_undoes_entry`), so a routine that restores the registers it uses returns with everything unchanged.
-  Part 3, the semantic contracts of the listings (Hoare-style, by symbolic execution over `stepIn`), is in progress;
-  meanwhile the contract itself is evaluated on the implementation for every generated case (oracle) and the
-  implementation is compared with the model step by step.
+
+  Part 1 (`Lemmas/C11Core`, kernel evaluation of the decoder over the image): each trap vector x20-x25 points at a
+  routine whose decoded instruction listing is exactly the known-good routine, with the device pointers resolving to
+  KBSR/KBDR/DSR/DDR/MCR and the prompt / exception message strings as specified.  An edit of os.asm that changes
+  any of these breaks a proof.
+
+  Part 2 (`Lemmas/OsRoutines`, `Lemmas/OsPuts`): the semantic contracts, for every machine state, every device
+  set and every number of unsuccessful device polls — by stepping the model's fetch-execute function through the
+  checked listing (induction over the polls and, for PUTS, over the string):
+    * `Rt.getc_trap`  GETC: the next keyboard byte in R0, the keyboard advanced by exactly the reads made;
+    * `Rt.out_trap`   OUT/PUTC: exactly one write of R0 to DDR after the status reads, R0 preserved;
+    * `Rt.puts_trap`  PUTS: exactly the words of the zero-terminated string at R0, in order;
+    * `Rt.in_trap`    IN: the prompt, then the byte read, echoed, and returned in R0;
+    * `Rt.halt_contract`, `Rt.halt_trap`, `Rt.mcr_off_stops`  HALT: the MCR bit is cleared and the run loop stops;
+  and in each case (`Rt.Returned`) control is at the instruction after the TRAP with the PSR (condition codes,
+  privilege, priority), every register other than the result register, both stack pointers, the flags, the
+  internal-register map and all memory below the I/O page except the named supervisor-stack cells unchanged.
+  Hypotheses: the OS is in memory (`Rt.OsLoaded`; `Rt.newSim_osLoaded` shows the constructor and `reset` establish
+  it), non-strict mode, the TRAP is fetched from plain memory, the supervisor-stack cells used lie in plain memory
+  above the OS image, the device ports are not shadowed by internal registers, and the devices answer as named.
+  `Rt.demo_getc` instantiates everything on a freshly constructed machine (non-vacuity).
+  Not proved: PUTSP's contract (its listing is checked in part 1; the contract is evaluated on the implementation
+  for every generated case by the oracle), strict mode, and interrupts arriving during a routine (C10's theorems
+  cover entry/return of one interrupt).
 -/
-import Lc3V.Props.C10
-import Lc3V.Gen.OsImage
+import Lc3V.Lemmas.C11Core
+import Lc3V.Lemmas.OsRoutines
+import Lc3V.Lemmas.OsPuts
 namespace Lc3V.C11
-open Lc3V SimInstr
-
-/-- word of the OS image at address `a` (the image is one block at x0000) -/
-def osWord (a : Nat) : Option W := (Gen.osWords0[a]?).join
-
-def dec (a : Nat) : Option SimInstr :=
-  match osWord a with
-  | some w => (match decode w with | .ok i => some i | .error _ => none)
-  | none => none
-
-/-- target cell of a PC-relative 9-bit offset used at address `a` -/
-def rel9 (a : Nat) (off : BitVec 9) : Nat := ((BitVec.ofNat 16 (a + 1)) + off.signExtend 16).toNat
-
-/-- `LDI/STI r` at `a` goes through a pointer cell holding `dev` -/
-def viaPointer (a : Nat) (off : BitVec 9) (dev : W) : Bool := osWord (rel9 a off) == some dev
-
-/-- the zero-terminated string of low bytes at `a` -/
-def strAt : Nat → Nat → List Nat
-  | _, 0 => []
-  | a, fuel + 1 => match osWord a with
-    | some w => if w = 0 then [] else w.toNat :: strAt (a + 1) fuel
-    | none => []
-
-def str (s : String) : List Nat := s.toList.map Char.toNat
-
-def chkGetc (a : Nat) : Bool :=
-  match dec a, dec (a + 1), dec (a + 2), dec (a + 3) with
-  | some (.ldi 0 o1), some (.br 3 ob), some (.ldi 0 o2), some .rti =>
-    viaPointer a o1 0xFE00 && rel9 (a + 1) ob == a && viaPointer (a + 2) o2 0xFE02
-  | _, _, _, _ => false
-
-def chkPutc (a : Nat) : Bool :=
-  match dec a, dec (a + 1), dec (a + 2), dec (a + 3), dec (a + 4), dec (a + 5), dec (a + 6), dec (a + 7) with
-  | some (.add 6 6 (.imm 0x1F)), some (.str 0 6 0), some (.ldi 0 o1), some (.br 3 ob), some (.ldr 0 6 0),
-    some (.add 6 6 (.imm 1)), some (.sti 0 o2), some .rti =>
-    viaPointer (a + 2) o1 0xFE04 && rel9 (a + 3) ob == a + 2 && viaPointer (a + 6) o2 0xFE06
-  | _, _, _, _, _, _, _, _ => false
-
-def chkPuts (a : Nat) : Bool :=
-  (match dec a, dec (a + 1), dec (a + 2), dec (a + 3), dec (a + 4) with
-   | some (.add 6 6 (.imm 0x1F)), some (.str 0 6 0), some (.add 6 6 (.imm 0x1F)), some (.str 1 6 0), some (.add 1 0 (.imm 0)) => true
-   | _, _, _, _, _ => false) &&
-  (match dec (a + 5), dec (a + 6), dec (a + 7), dec (a + 8), dec (a + 9) with
-   | some (.ldr 0 1 0), some (.br 2 oe), some (.trap 0x21), some (.add 1 1 (.imm 1)), some (.br 7 ol) =>
-     rel9 (a + 6) oe == a + 10 && rel9 (a + 9) ol == a + 5
-   | _, _, _, _, _ => false) &&
-  (match dec (a + 10), dec (a + 11), dec (a + 12), dec (a + 13), dec (a + 14) with
-   | some (.ldr 1 6 0), some (.add 6 6 (.imm 1)), some (.ldr 0 6 0), some (.add 6 6 (.imm 1)), some .rti => true
-   | _, _, _, _, _ => false)
-
-def chkIn (a : Nat) : Bool :=
-  match dec a, dec (a + 1), dec (a + 2), dec (a + 3), dec (a + 4) with
-  | some (.lea 0 op), some (.trap 0x22), some (.trap 0x20), some (.trap 0x21), some .rti =>
-    strAt (rel9 a op) 64 == str "Input character: "
-  | _, _, _, _, _ => false
-
-def chkHalt (a : Nat) : Bool :=
-  match dec a, dec (a + 1), dec (a + 2) with
-  | some (.and 7 7 (.imm 0)), some (.sti 7 o), some (.br 7 ob) => viaPointer (a + 1) o 0xFFFE && rel9 (a + 2) ob == a
-  | _, _, _ => false
-
-/-- exception / bad-trap handlers: LEA R0,msg ; PUTS ; HALT (or RTI for the missing-interrupt handler) -/
-def chkMsg (a : Nat) (msg : String) (last : SimInstr) : Bool :=
-  match dec a, dec (a + 1), dec (a + 2) with
-  | some (.lea 0 op), some (.trap 0x22), some l => l == last && strAt (rel9 a op) 64 == str msg
-  | _, _, _ => false
-
-def chkPutsp (a : Nat) : Bool :=
-  (match dec a, dec (a + 1), dec (a + 2), dec (a + 3), dec (a + 4), dec (a + 5), dec (a + 6), dec (a + 7), dec (a + 8) with
-   | some (.add 6 6 (.imm 0x1F)), some (.str 0 6 0), some (.add 6 6 (.imm 0x1F)), some (.str 1 6 0),
-     some (.add 6 6 (.imm 0x1F)), some (.str 2 6 0), some (.add 6 6 (.imm 0x1F)), some (.str 3 6 0), some (.add 1 0 (.imm 0)) => true
-   | _, _, _, _, _, _, _, _, _ => false) &&
-  -- loop head: load word, mask low byte, stop on zero, emit
-  (match dec (a + 9), dec (a + 10), dec (a + 11), dec (a + 12), dec (a + 13) with
-   | some (.ldr 2 1 0), some (.ld 0 om), some (.and 0 2 (.reg 0)), some (.br 2 oe), some (.trap 0x21) =>
-     osWord (rel9 (a + 10) om) == some 0x00FF && rel9 (a + 12) oe == a + 31
-   | _, _, _, _, _ => false) &&
-  -- high byte by eight shift rounds
-  (match dec (a + 14), dec (a + 15), dec (a + 16), dec (a + 17), dec (a + 18), dec (a + 19) with
-   | some (.and 0 0 (.imm 0)), some (.and 3 3 (.imm 0)), some (.add 3 3 (.imm 8)), some (.add 3 3 (.imm 0)),
-     some (.br 6 ox), some (.add 0 0 (.reg 0)) => rel9 (a + 18) ox == a + 26
-   | _, _, _, _, _, _ => false) &&
-  (match dec (a + 20), dec (a + 21), dec (a + 22), dec (a + 23), dec (a + 24), dec (a + 25) with
-   | some (.add 2 2 (.imm 0)), some (.br 3 os), some (.add 0 0 (.imm 1)), some (.add 2 2 (.reg 2)),
-     some (.add 3 3 (.imm 0x1F)), some (.br 7 ol) => rel9 (a + 21) os == a + 23 && rel9 (a + 25) ol == a + 17
-   | _, _, _, _, _, _ => false) &&
-  (match dec (a + 26), dec (a + 27), dec (a + 28), dec (a + 29), dec (a + 30) with
-   | some (.add 0 0 (.imm 0)), some (.br 2 oe), some (.trap 0x21), some (.add 1 1 (.imm 1)), some (.br 7 ol) =>
-     rel9 (a + 27) oe == a + 31 && rel9 (a + 30) ol == a + 9
-   | _, _, _, _, _ => false) &&
-  (match dec (a + 31), dec (a + 32), dec (a + 33), dec (a + 34), dec (a + 35), dec (a + 36), dec (a + 37), dec (a + 38), dec (a + 39) with
-   | some (.ldr 3 6 0), some (.add 6 6 (.imm 1)), some (.ldr 2 6 0), some (.add 6 6 (.imm 1)), some (.ldr 1 6 0),
-     some (.add 6 6 (.imm 1)), some (.ldr 0 6 0), some (.add 6 6 (.imm 1)), some .rti => true
-   | _, _, _, _, _, _, _, _, _ => false)
-
-/-- routine start address stored in a vector-table entry -/
-def vec (v : Nat) : Nat := match osWord v with | some w => w.toNat | none => 0
-
-set_option maxRecDepth 100000 in
-theorem getc_listing : chkGetc (vec 0x20) = true := by decide +kernel
-set_option maxRecDepth 100000 in
-theorem putc_listing : chkPutc (vec 0x21) = true := by decide +kernel
-set_option maxRecDepth 100000 in
-theorem puts_listing : chkPuts (vec 0x22) = true := by decide +kernel
-set_option maxRecDepth 100000 in
-theorem in_listing : chkIn (vec 0x23) = true := by decide +kernel
-set_option maxRecDepth 100000 in
-theorem putsp_listing : chkPutsp (vec 0x24) = true := by decide +kernel
-set_option maxRecDepth 100000 in
-theorem halt_listing : chkHalt (vec 0x25) = true := by decide +kernel
-
-set_option maxRecDepth 100000 in
-/-- every other trap vector and every interrupt vector has a handler: bad trap prints its message and halts,
-    missing interrupt handler prints its message and returns -/
-theorem default_vectors :
-    chkMsg (vec 0x00) "\n--- Bad trap executed ---" (.trap 0x25) = true ∧
-    chkMsg (vec 0x26) "\n--- Bad trap executed ---" (.trap 0x25) = true ∧
-    chkMsg (vec 0xFF) "\n--- Bad trap executed ---" (.trap 0x25) = true ∧
-    chkMsg (vec 0x180) "\n--- Missing interrupt handler ---" .rti = true ∧
-    chkMsg (vec 0x1FF) "\n--- Missing interrupt handler ---" .rti = true := by decide +kernel
+open Lc3V
 
 def obligations : List Lean.Name :=
-  [``getc_listing, ``putc_listing, ``puts_listing, ``in_listing, ``putsp_listing, ``halt_listing, ``default_vectors]
+  [``getc_listing, ``putc_listing, ``puts_listing, ``in_listing, ``putsp_listing, ``halt_listing, ``default_vectors,
+   ``Rt.fetchExec_plain, ``Rt.trap_step_os, ``Rt.return_from, ``Rt.newSim_osLoaded, ``Rt.newSim_mcr_mapped,
+   ``Rt.getc_trap, ``Rt.out_trap, ``Rt.puts_trap, ``Rt.in_trap, ``Rt.halt_contract, ``Rt.halt_trap,
+   ``Rt.mcr_off_stops, ``Rt.demo_getc]
 
 end Lc3V.C11
